@@ -195,6 +195,19 @@ def c10():
     cases.append(case("finding-uses-member-hides-constant", files, [
         (0, "d", "   cBoth", 0, 4, [sel(files, "aN", "cBoth", 0, 0)], {"uses-member", "plain"}, "a procedure of the first used module hides the constant of the second"),
     ]))
+    # --- finding: a name in TYPE position (type reference, uses entry) is answered with a like-named VARIABLE
+    A = "class aA\n\nuses aB\n\naB : aC\n\nproc P(aC : int4)\n   var v : aB\n   var w : refto aC\n   v.fb\n   w.fc\nendproc\n\nfunc F(p : int4) return aB\n   var AB : int4\nendfunc\n"
+    Bc = "class aB\nfb : int4\n"
+    Cc = "class aC\nfc : int4\n"
+    files = [("aA", A), ("aB", Bc), ("aC", Cc)]
+    cases.append(case("finding-typeref-shadowed", files, [
+        (0, "d", "var v : aB", 0, 9, [sel(files, "aB", "class aB", 0, 6)], {"typeref", "typeref-shadowed"}, "type reference to a used class with a field of that name in the class"),
+        (0, "d", "var w : refto aC", 0, 15, [], {"typeref", "typeref-shadowed"}, "type reference (class neither used nor ancestor: unresolvable) with a parameter of that name"),
+        (0, "d", "return aB", 0, 8, [sel(files, "aB", "class aB", 0, 6)], {"typeref", "rettype", "typeref-shadowed"}, "return type with a local of that name (other letter case)"),
+        (0, "d", "uses aB", 0, 5, [sel(files, "aB", "class aB", 0, 6)], {"uses-entry", "typeref-shadowed"}, "uses entry with a field of that name in the class"),
+        (0, "d", "v.fb", 0, 2, [sel(files, "aB", "fb : int4", 0, 0, 2)], {"dotted", "right"}, "the variable's TYPE is the class all the same: its member resolves"),
+        (0, "d", "w.fc", 0, 2, [sel(files, "aC", "fc : int4", 0, 0, 2)], {"dotted", "right"}, "…"),
+    ]))
     # --- excluded edge cases (WellFormedWs): correspondence only
     A = ("class aA\n\nproc First\n   fLate\n   cLate\n   self.fLate\nendproc\n\nfLate : int4\nuses aLate\n\nproc Second\n   fLate\n   cLate\nendproc\n")
     L = "module aLate\nconst cLate = 2\n"
